@@ -400,6 +400,8 @@ const EXHAUSTIVE: &[(&str, &str, &[&str])] = &[
     ("T28", "{- [] ([01 02 03])}", &["push f0 07", "insert_all f0 0 [00 00 00 00 00 00 00 00 00 00 00 00 00 00 00 00 00 00 00 00]", "touch f1.e0", "push f1.e0 04", "uinsert f1 0 1", "uinsert f1 1 1", "remove f1 0", "enter f1", "enter e0", "leave", "remove f0 0", "reborrow"]),
     ("T25", "{00 []}", &["write . 07", "push f0 01", "remove f0 0", "replace f0 [05 06]", "reset .", "enter f0", "leave", "push . 02", "reborrow"]),
     ("T34", "<0>", &["set_variant . 0", "set_variant . 1", "set_variant . 2", "push v 05", "write v 0102", "remove v 0", "enter v", "leave", "replace . <1 [01 02]>", "reborrow"]),
+    ("T41", "[0100:aa]", &["minsert . 0001 bb", "minsert . ff00 cc", "minsert . 0101 dd", "minsert . 0002 ee", "mremove . 0001", "mremove . 0100", "mset . 0001 11", "minsert_all . [0001:01 0100:02 ff00:03]", "clear .", "reborrow"]),
+    ("T38", "[0100]", &["sinsert . 0001", "sinsert . ff00", "sinsert . 0101", "sinsert . 0002", "sremove . 0001", "sremove . 0100", "sinsert_all . [0001 0100 ff00]", "clear .", "reborrow"]),
     ("T19", "((05 [01]))", &["uminsert . 03", "uminsert . 05", "uminsert . 09", "umremove . 05", "push e0 07", "push e1 08", "touch e0", "enter e0", "leave", "clear .", "utouch . 0"]),
 ];
 
